@@ -23,7 +23,7 @@ type refEntry struct {
 	rc     *pkix.RevokedCertificate
 }
 
-var issuers = []string{"CN=I1", "CN=I2"}
+var issuers = []string{"CN=I1", "CN=I12"} // one name extends the other by a digit: keys must still be kept apart
 
 type bench struct {
 	mapS, dskS CRLStore
